@@ -241,8 +241,11 @@ func (e *Engine) solveOne(o *Oblig, dir, base string, timeoutS int) {
 		cases = append(cases, tAnd(none...)) // exhaustiveness: the remaining case
 	}
 	var total int64
-	if o.Expect != "unsat" && timeoutS > 3 {
-		timeoutS = 3 // vacuity canaries only need "not unsat"
+	if o.Expect == "sat" && timeoutS > 2 {
+		timeoutS = 2 // vacuity canaries only need "not unsat"; contradictions are found quickly
+	}
+	if o.Expect == "sat-soft" && timeoutS > 1 {
+		timeoutS = 1
 	}
 	for ci, cs := range cases {
 		text := e.smtText(o, "", cs)
